@@ -28,7 +28,7 @@ DoBuild(e) ==
   LET nmust == NeededMust(script, e.goal) \cap Acts(script)
       nmay == Needed(script, e.goal) \cap Acts(script)
       ran == ToSet(e.ran)
-      mustrun == (must \cup AlwaysDown("must")) \cap nmust
+      mustrun == (must \cup (AlwaysDown("must") \ SymCopies(script))) \cap nmust
       mayrun == (may \cup AlwaysDown("may")) \cap nmay
       comp == { <<e.compiled[i].t, e.compiled[i].s>> : i \in 1..Len(e.compiled) }
       cmust == { o \in omust : o[1] \in nmust } \cup { o \in Objs(script) : o[1] \in nmust /\ \E a \in Always(script) : ObjReadsTarget(script, o, a) }
@@ -45,7 +45,7 @@ DoBuild(e) ==
 
 DoTouch(e) ==
   /\ IF e.f # ""
-       THEN /\ must' = must \cup (DownFile(script, e.f, "must") \cap Acts(script))
+       THEN /\ must' = must \cup ((DownFile(script, e.f, "must") \cap Acts(script)) \ SymCopies(script))
             /\ may' = may \cup (DownFile(script, e.f, "may") \cap Acts(script))
             \* objects compiled from the file (or from a header it is included by), and objects compiled
             \* from a generated source whose generating step is downstream of the file
@@ -54,7 +54,7 @@ DoTouch(e) ==
             /\ omay' = omay \cup { o \in Objs(script) : ObjReadsFile(script, o, e.f) \/ (o[2].t # "" /\ ReadsFile(script, o[2].t, e.f, "may"))
                                                        \/ (\E h \in TargetsOf(Decl(script, o[1]).ins) : ReadsFile(script, h, e.f, "may")) }
        ELSE \* the output of target e.t was modified: its consumers are out of date (not e.t itself)
-            /\ must' = must \cup ((DownTarget(script, e.t, "must") \ {e.t}) \cap Acts(script))
+            /\ must' = must \cup (((DownTarget(script, e.t, "must") \ {e.t}) \cap Acts(script)) \ SymCopies(script))
             /\ may' = may \cup ((DownTarget(script, e.t, "may") \ {e.t}) \cap Acts(script))
             /\ omust' = omust \cup { o \in Objs(script) : ObjReadsTarget(script, o, e.t) }
             /\ omay' = omay \cup { o \in Objs(script) : ObjReadsTarget(script, o, e.t) }
